@@ -17,7 +17,12 @@ def main():
     if hasattr(spec, 'main'): sys.exit(spec.main(tier))
     c = vfeng.Check(prop, tier, getattr(spec, 'LEVEL', 'model_checking'))
     try:
-        c.run_all(spec.units(tier), spec.harnesses(tier))
+        hs = spec.harnesses(tier)
+        only = os.environ.get('VERIF_ONLY')      # debugging aid: run a subset of the harnesses
+        if only:
+            import re as _re
+            hs = [h for h in hs if _re.search(only, h.label or h.name)]
+        c.run_all(spec.units(tier), hs)
         extra = spec.extra(c, tier) if hasattr(spec, 'extra') else None
         rc = c.finish(getattr(spec, 'LEVEL_TEXT', ''), extra, getattr(spec, 'TRUSTED', ()))
     finally:
